@@ -649,7 +649,8 @@ Definition validate (d : design) : list err :=
 Inductive ref :=
 | RPayload (m : method) (n : name)              (* path / query / header / cookie name -> payload attribute *)
 | RBody (m : method) (n : name)                 (* Body / MapParams attribute name -> payload attribute (looked up for object payloads only) *)
-| RResult (m : method) (n : name)               (* response header / cookie / body name -> result attribute *)
+| RResult (m : method) (n : name)               (* response header / cookie name -> result attribute (the whole result if it is not an object) *)
+| RResultBody (m : method) (n : name)           (* response body attribute name -> result attribute *)
 | RTag (m : method) (n : name)                  (* Tag attribute -> result attribute *)
 | RError (ls : list (list errdef)) (n : name)   (* error response -> error declared at a visible level *)
 | RErrAttr (ls : list (list errdef)) (e n : name) (* error response header -> attribute of the error type *)
@@ -663,7 +664,7 @@ Inductive ref :=
 Definition http_refs (d : design) (s : service) (m : method) (h : http) : list ref :=
   map (RPayload m) (h_path h ++ h_query h ++ h_headers h ++ h_cookies h) ++
   map (RBody m) (body_names (h_body h) ++ match h_mapparams h with Some (Some n) => [n] | _ => [] end) ++
-  flat_map (fun rs => map (RResult m) (rs_headers rs ++ rs_cookies rs ++ body_names (rs_body rs)) ++
+  flat_map (fun rs => map (RResult m) (rs_headers rs ++ rs_cookies rs) ++ map (RResultBody m) (body_names (rs_body rs)) ++
                       match rs_tag rs with Some t => [RTag m t] | None => [] end) (h_responses h) ++
   flat_map (fun er => RError [m_errors m; s_errors s; d_errors d] (er_name er) ::
                       map (RErrAttr [m_errors m; s_errors s; d_errors d] (er_name er)) (er_headers er)) (h_errors h).
@@ -690,6 +691,18 @@ Definition refs (d : design) : list ref :=
                      | Some a => match a_view a with Some v => [RAttrView (d_attrs d) n v] | None => [] end
                      | None => [] end) (reachable_nodes (d_graph d) (d_roots d)).
 
+(* an attribute name of an object result: in the type, and in every view of a result type
+   (in the fixed view when Result(T, View(v)) names one; the first view of that name) *)
+Definition obj_result_resolves (r : result) (attrs : list name) (n : name) : Prop :=
+  match r_views r with
+  | None => In n attrs
+  | Some vs =>
+      match r_fixed r with
+      | Some v => exists w, lookup_view vs v = Some w /\ In n (v_attrs w)
+      | None => In n attrs /\ forall w, In w vs -> In n (v_attrs w)
+      end
+  end.
+
 Definition resolves (r : ref) : Prop :=
   match r with
   | RPayload m n => match m_payload m with
@@ -699,18 +712,14 @@ Definition resolves (r : ref) : Prop :=
                     end
   | RBody m n => match m_payload m with SObj attrs => In n attrs | _ => True end
   | RResult m n => match r_shape (m_result m) with
-                   | SObj attrs =>
-                       match r_views (m_result m) with
-                       | None => In n attrs
-                       | Some vs =>
-                           match r_fixed (m_result m) with
-                           | Some v => exists w, In w vs /\ v_name w = v /\ In n (v_attrs w)
-                           | None => In n attrs /\ forall w, In w vs -> In n (v_attrs w)
-                           end
-                       end
+                   | SObj attrs => obj_result_resolves (m_result m) attrs n
                    | SOther | SUserNonObj => True   (* the whole result is what is mapped *)
                    | SEmpty => False
                    end
+  | RResultBody m n => match r_shape (m_result m) with
+                       | SObj attrs => obj_result_resolves (m_result m) attrs n
+                       | _ => False
+                       end
   | RTag m n => match r_shape (m_result m) with SObj attrs => In n attrs | _ => False end
   | RError ls n => exists e, In e (List.concat ls) /\ e_name e = n
   | RErrAttr ls e n => forall ed, find_err ls e = Some ed ->
@@ -878,6 +887,113 @@ Definition run_program (p : program) (later : list err) : outcome :=
   match dsl_phase p with
   | [] => match later with [] => Accepted | _ => Rejected (List.length later) end
   | es => Rejected (List.length es)
+  end.
+
+(* ====================================================================== *)
+(* Part 4 - errors name the offending expression                          *)
+(* ====================================================================== *)
+
+(* eval.ReportError (eval/eval.go:102-119) appends " in <EvalName of the current
+   expression>" (" (top level)" when the stack is empty) to every error a DSL function
+   records; IncompatibleDSL names the outermost exported dsl function of the call chain
+   (eval.caller). The EvalName methods of expr/ are compositional: an endpoint names its
+   service, a response names its endpoint. [epath] is the path of expressions from the
+   design root to the current one, as far as the names go. *)
+Inductive epath :=
+| PTop
+| PAPI (n : string) | PDesign | PAPIGRPC
+| PServer (n : string) | PHost (h srv : string)
+| PService (n : string)                 (* ServiceExpr, HTTPServiceExpr, GRPCServiceExpr *)
+| PMethod (svc m : string)
+| PHTTPEndpoint (svc m : string) | PGRPCEndpoint (svc m : string)
+| PFileServer (svc file : string)
+| PHTTPResponse (parent : option epath) | PGRPCResponse (parent : option epath)
+| PRoute (verb path : string) (ep : epath)
+| PAttribute                            (* AttributeExpr, MappedAttributeExpr, user and result types *)
+| PContact (n : string) | PLicense (n : string) | PDocs (url : string)
+| PExample (summary : string)
+| PScheme (ty : string) | PSecurity (first : option string)
+| PHTTPError (n : string).
+
+Local Open Scope string_scope.
+
+Definition quote (s : string) : string := """" ++ s ++ """".   (* %#v / %q of a name without special characters *)
+
+Definition is_empty (s : string) : bool := match s with EmptyString => true | _ => false end.
+
+Definition svc_name (n : string) : string := if is_empty n then "unnamed service" else "service " ++ quote n.
+
+Fixpoint eval_name (p : epath) : string :=
+  match p with
+  | PTop => ""
+  | PAPI n => "API " ++ n
+  | PDesign => "design"
+  | PAPIGRPC => "API GRPC"
+  | PServer n => "Server " ++ n
+  | PHost h srv => "host " ++ quote h ++ " of server " ++ quote srv
+  | PService n => svc_name n
+  | PMethod svc m => svc_name svc ++ " " ++ (if is_empty m then "unnamed method" else "method " ++ quote m)
+  | PHTTPEndpoint svc m => svc_name svc ++ " " ++ (if is_empty m then "unnamed HTTP endpoint" else "HTTP endpoint " ++ quote m)
+  | PGRPCEndpoint svc m => svc_name svc ++ " " ++ (if is_empty m then "unnamed gRPC endpoint" else "gRPC endpoint " ++ quote m)
+  | PFileServer svc file => svc_name svc ++ " " ++ "file server " ++ file
+  | PHTTPResponse None => "HTTP response"
+  | PHTTPResponse (Some q) => "HTTP response of " ++ eval_name q
+  | PGRPCResponse None => "gRPC response"
+  | PGRPCResponse (Some q) => "gRPC response of " ++ eval_name q
+  | PRoute verb path ep => "route " ++ verb ++ " " ++ quote path ++ " of " ++ eval_name ep
+  | PAttribute => "attribute"
+  | PContact n => "Contact " ++ n
+  | PLicense n => "License " ++ n
+  | PDocs url => "Documentation " ++ url
+  | PExample summary => "example " ++ quote summary
+  | PScheme ty => ty ++ "Security"
+  | PSecurity None => "Security"
+  | PSecurity (Some n) => "Securityscheme " ++ n
+  | PHTTPError n => "HTTP error " ++ n
+  end.
+
+(* the suffix ReportError adds *)
+Definition report_suffix (p : epath) : string :=
+  match p with
+  | PTop => " (top level)"
+  | _ => if is_empty (eval_name p) then "" else " in " ++ eval_name p
+  end.
+
+(* the message of eval.IncompatibleDSL for function f called in p *)
+Definition incompatible_msg (f : string) (p : epath) : string := "invalid use of " ++ f ++ report_suffix p.
+
+(* the expression eval.Current() is in each context of the grid (names of the harness's
+   scaffold: API gridapi, service gs, method gm, server srv, host h, file f.json, example
+   sum, schemes basic_g / an OAuth2 one) *)
+Definition ctx_path (c : ctx) : epath :=
+  match c with
+  | CTop => PTop
+  | CAPI => PAPI "gridapi"
+  | CServer => PServer "srv"
+  | CHost => PHost "h" "srv"
+  | CService | CHTTPService | CGRPCService => PService "gs"
+  | CMethod => PMethod "gs" "gm"
+  | CAPIHTTP => PDesign
+  | CHTTPEndpoint => PHTTPEndpoint "gs" "gm"
+  | CHTTPResponse | CHTTPErrResponse => PHTTPResponse (Some (PHTTPEndpoint "gs" "gm"))
+  | CFileServer => PFileServer "gs" "f.json"
+  | CAPIGRPC => PAPIGRPC
+  | CGRPCEndpoint => PGRPCEndpoint "gs" "gm"
+  | CGRPCResponse => PGRPCResponse (Some (PGRPCEndpoint "gs" "gm"))
+  | CScheme => PScheme "OAuth2"
+  | CSecurity => PSecurity (Some "basic_g")
+  | CContact => PContact ""
+  | CLicense => PLicense ""
+  | CDocs => PDocs ""
+  | CExample => PExample "sum"
+  | _ => PAttribute
+  end.
+
+(* what a misplaced call records, message included *)
+Definition located_call (c : ctx) (e : fentry) : list string :=
+  match eval_call c e with
+  | Incompatible f :: _ => [incompatible_msg f (ctx_path c)]
+  | _ => []
   end.
 
 (* ---- the documented context table ----
